@@ -150,7 +150,7 @@ func (s *Solver) Check(extra string, getValues []string) (Result, map[string]str
 	}
 	t0 := time.Now()
 	defer func() { s.Total += time.Since(t0); s.N++ }()
-	lines, ok := s.roundtrip("(push 1)\n"+extra+"(check-sat)\n", time.Duration(s.TOms)*time.Millisecond*2+10*time.Second)
+	lines, ok := s.roundtrip("(push 1)\n"+extra+"(check-sat)\n", time.Duration(s.TOms)*time.Millisecond+8*time.Second)
 	if !ok {
 		return Unknown, nil, fmt.Errorf("solver timeout/died")
 	}
